@@ -7,6 +7,7 @@
 //   PlatformSpecificMutexLock / Unlock   forced pre-emption (sched_yield / short usleep chosen from the
 //                                        case's seed) before and after acquire and release; counts
 //                                        acquisitions/releases; checks mutual exclusion directly
+//   PlatformSpecificMemset (0xCD poison)  counted like the allocator calls below
 //   PlatformSpecificMalloc/Realloc/Free  the detector's underlying allocator calls: counts calls made by a
 //                                        worker thread that does NOT hold the detector lock (`unlocked`)
 // The global detector is a real MemoryLeakDetector whose failure reporter counts reports that fire
@@ -15,7 +16,14 @@
 // failWith(FailFailure, TestTerminatorWithoutExceptions) -> longjmp).
 //
 // Operations (one per line; labels b<N>, N < 4096):
+//   fresh                         (first line only) this case's process switches the thread-safe overloads on BEFORE its
+//                                 first tracked allocation, so that the save/restore cycle inside the first
+//                                 getGlobalDetector() call runs under thread-safe mode; implies `on`
 //   on | off                      thread-safe overloads / default overloads
+//   save | restore                MemoryLeakWarningPlugin::saveAndDisableNewDeleteOverloads / restoreNewDeleteOverloads
+//                                 (nesting allowed; phases are only run outside save scopes); afterwards every one of
+//                                 the 11 pointers must still be on its thread-safe wrapper: a worker's underlying
+//                                 allocator call without the lock is counted per entry form (`unlocked-at <form> <n>`)
 //   threads <n> <seed>            start collecting scripts for n threads
 //   t <tid> new|newnt|newdbg|newdbgi|newarr|newarrnt|newarrdbg|newarrdbgz|malloc|calloc|mallocd <label> <size>
 //        (malloc/calloc: the macro path cpputest_malloc_location/cpputest_calloc_location, which also bumps the C
@@ -81,6 +89,10 @@ bool g_on = false;
 unsigned long g_seed = 1;
 
 __thread int t_worker = 0;
+__thread int t_cur_kind = 0;                 // the script form the worker is executing (attribution of `unlocked`)
+std::atomic<long> g_unlocked_kind[32];
+bool g_pristine = false;                     // no tracked allocation happened before main (needed for `fresh`)
+bool g_fresh_done = false;
 __thread int t_holding = 0;
 __thread unsigned long long t_rng = 88172645463325252ULL;
 
@@ -124,11 +136,15 @@ void my_unlock(PlatformSpecificMutex m) {
 }
 
 inline void underlying_call() {
-    if (t_worker && g_on && t_holding == 0) g_unlocked.fetch_add(1);
+    if (t_worker && g_on && t_holding == 0) { g_unlocked.fetch_add(1); g_unlocked_kind[t_cur_kind & 31].fetch_add(1); }
 }
 void* my_malloc(size_t n) { underlying_call(); return real_malloc(n); }
 void* my_realloc(void* p, size_t n) { underlying_call(); return real_realloc(p, n); }
 void my_free(void* p) { underlying_call(); real_free(p); }
+// invalidateMemory poisons a released block with 0xCD through this seam after looking it up in the detector's
+// table: it must happen under the lock as well (cpputest_calloc's zero fill, value 0, legitimately does not)
+void* (*real_memset)(void*, int, size_t) = 0;
+void* my_memset(void* p, int v, size_t n) { if ((v & 0xff) == 0xCD) underlying_call(); return real_memset(p, v, n); }
 
 // ---- failure reporter: counts while workers run, otherwise the library's own reporter
 MemoryLeakFailure* g_real_reporter = 0;
@@ -155,6 +171,7 @@ inline void verify(unsigned label, unsigned n) {
 // one script operation through the real entry points
 void exec_op(const SOp& o) {
     unsigned l = o.label;
+    t_cur_kind = o.kind;
     switch (o.kind) {
     case K_NEW:       g_ptr[l] = ::operator new(o.size); break;
     case K_NEWNT:     g_ptr[l] = ::operator new(o.size, std::nothrow); break;
@@ -308,6 +325,10 @@ void __tsan_on_report(void* report) {
 namespace {
 
 
+const char* const KIND_NAMES[] = { "new", "newnt", "newdbg", "newdbgi", "newarr", "newarrnt", "newarrdbg", "newarrdbgz", "malloc", "calloc",
+                                   "mallocd", "realloc", "delete", "deletesz", "deletent", "deletedbg", "deletedbgi", "delarr", "delarrsz",
+                                   "delarrnt", "delarrdbg", "delarrdbgi", "free", "give", "take" };
+
 bool parse_label(const std::string& s, unsigned& out) {
     if (s.size() < 2 || s[0] != 'b') return false;
     unsigned long v = 0;
@@ -343,6 +364,7 @@ int release_kind(const std::string& w, int& fam) {
 void body() {
     const vh::Case& c = *g_case;
     int nthreads = 0;
+    int depth = 0;              // open saveAndDisable scopes
     long outstanding = 0;       // cumulative, relative: sum of the deltas measured tightly around each phase
     size_t det_ops = 0, all_ops = 0;
     for (unsigned i = 0; i < MAXL; i++) { g_ptr[i] = 0; g_size[i] = 0; g_family[i] = F_NONE; g_owner[i] = -1; g_transit[i] = -1; g_given[i].store(0); }
@@ -351,15 +373,34 @@ void body() {
     for (size_t i = 0; i < c.ops.size(); i++) {
         const vh::Words& w = c.ops[i];
         g_progress.fetch_add(1, std::memory_order_relaxed);
-        if (w[0] == "on" && w.size() == 1) {
+        if (w[0] == "fresh" && w.size() == 1 && i == 0 && g_fresh_done) {
+            vh::emit_op("fresh");       // done in run_case, before the first tracked allocation of this process
+            vh::emit("overloaded %d", MemoryLeakWarningPlugin::areNewDeleteOverloaded() ? 1 : 0);
+        }
+        else if (w[0] == "save" && w.size() == 1) {
+            vh::emit_op("save");
+            MemoryLeakWarningPlugin::saveAndDisableNewDeleteOverloads();
+            depth++;
+            vh::emit("overloaded %d", MemoryLeakWarningPlugin::areNewDeleteOverloaded() ? 1 : 0);
+        }
+        else if (w[0] == "restore" && w.size() == 1 && depth > 0) {
+            vh::emit_op("restore");
+            MemoryLeakWarningPlugin::restoreNewDeleteOverloads();
+            depth--;
+            vh::emit("overloaded %d", MemoryLeakWarningPlugin::areNewDeleteOverloaded() ? 1 : 0);
+        }
+        else if (depth > 0) vh::emit("> skip");      // inside a save scope the overloads are off: nothing is run
+        else if (w[0] == "on" && w.size() == 1) {
             vh::emit_op("on");
             MemoryLeakWarningPlugin::turnOnThreadSafeNewDeleteOverloads();
             g_on = true;
+            vh::emit("overloaded %d", MemoryLeakWarningPlugin::areNewDeleteOverloaded() ? 1 : 0);
         }
         else if (w[0] == "off" && w.size() == 1) {
             vh::emit_op("off");
             MemoryLeakWarningPlugin::turnOnDefaultNotThreadSafeNewDeleteOverloads();
             g_on = false;
+            vh::emit("overloaded %d", MemoryLeakWarningPlugin::areNewDeleteOverloaded() ? 1 : 0);
         }
         else if (w[0] == "threads" && w.size() == 3 && vh::to_u64(w[1]) >= 1 && vh::to_u64(w[1]) <= MAXT) {
             nthreads = (int) vh::to_u64(w[1]);
@@ -413,6 +454,7 @@ void body() {
             pthread_t th[MAXT];
             for (int t = 0; t < nthreads; t++) { g_script_ptr[t] = g_script[t].empty() ? 0 : &g_script[t][0]; g_script_len[t] = g_script[t].size(); }
             g_locks = 0; g_unlocks = 0; g_overlap = 0; g_unlocked = 0; g_reports = 0; g_pattern = 0; g_stuck = 0;
+            for (int k = 0; k < 32; k++) g_unlocked_kind[k] = 0;
             g_go.store(0);
             long before = outstanding_now();
             g_concurrent.store(1);
@@ -433,6 +475,7 @@ void body() {
             vh::emit("locks %ld", g_locks.load());
             vh::emit("unlocks %ld", g_unlocks.load());
             vh::emit("unlocked %ld", g_unlocked.load());
+            for (int k = 0; k <= K_FREE; k++) if (g_unlocked_kind[k].load()) vh::emit("unlocked-at %s %ld", KIND_NAMES[k], g_unlocked_kind[k].load());
             vh::emit("overlap %ld", g_overlap.load());
             vh::emit("pattern %ld", g_pattern.load());
             if (g_stuck.load()) vh::emit("stuck %ld", g_stuck.load());
@@ -495,7 +538,25 @@ void body() {
         }
         else vh::emit("> skip");
     }
+    while (depth > 0) { MemoryLeakWarningPlugin::restoreNewDeleteOverloads(); depth--; }
     if (g_on) { MemoryLeakWarningPlugin::turnOnDefaultNotThreadSafeNewDeleteOverloads(); g_on = false; }
+}
+
+// Per-process start (every case is a fresh child of a parent that never made a tracked allocation): switch the
+// overloads on - thread-safe first in the `fresh` variant -, then the FIRST getGlobalDetector() call of the process
+// (its internal saveAndDisable/restore cycle), then install a real MemoryLeakDetector whose reporter is ours
+// (built inside one more save/restore cycle, as the library does for its own).
+void setup_process(bool fresh) {
+    if (fresh) { MemoryLeakWarningPlugin::turnOnThreadSafeNewDeleteOverloads(); g_on = true; g_fresh_done = true; }
+    else MemoryLeakWarningPlugin::turnOnDefaultNotThreadSafeNewDeleteOverloads();
+    MemoryLeakWarningPlugin::getGlobalDetector();
+    g_real_reporter = MemoryLeakWarningPlugin::getGlobalFailureReporter();
+    MemoryLeakWarningPlugin::saveAndDisableNewDeleteOverloads();
+    static SwitchReporter reporter;
+    g_detector = new MemoryLeakDetector(&reporter);
+    MemoryLeakWarningPlugin::restoreNewDeleteOverloads();
+    g_detector->enable();
+    MemoryLeakWarningPlugin::setGlobalDetector(g_detector, &reporter);
 }
 
 // watchdog: no operation of any thread completed for 6 s = some thread is blocked for ever (typically on the
@@ -531,6 +592,7 @@ void on_alarm(int) {
 void run_case(const vh::Case& c) {
     g_case = &c;
     signal(SIGALRM, on_alarm);
+    setup_process(g_pristine && !c.ops.empty() && c.ops[0].size() == 1 && c.ops[0][0] == "fresh");
     pthread_t wd;
     pthread_create(&wd, 0, watchdog, 0);
     pthread_detach(wd);
@@ -540,19 +602,15 @@ void run_case(const vh::Case& c) {
 } // namespace
 
 int main() {
-    // seams first, then our detector (a real MemoryLeakDetector; only the reporter is ours)
+    // The parent only reads the cases and forks: its own allocations must not be tracked (a child may switch the
+    // thread-safe overloads on before ITS first tracked allocation), so the overloads go off before anything else.
+    g_pristine = MemoryLeakWarningPlugin::getGlobalFailureReporter() == 0;
+    MemoryLeakWarningPlugin::turnOffNewDeleteOverloads();
     real_lock = PlatformSpecificMutexLock;       PlatformSpecificMutexLock = my_lock;
     real_unlock = PlatformSpecificMutexUnlock;   PlatformSpecificMutexUnlock = my_unlock;
     real_malloc = PlatformSpecificMalloc;        PlatformSpecificMalloc = my_malloc;
     real_realloc = PlatformSpecificRealloc;      PlatformSpecificRealloc = my_realloc;
     real_free = PlatformSpecificFree;            PlatformSpecificFree = my_free;
-    MemoryLeakWarningPlugin::getGlobalDetector();
-    g_real_reporter = MemoryLeakWarningPlugin::getGlobalFailureReporter();
-    MemoryLeakWarningPlugin::saveAndDisableNewDeleteOverloads();
-    static SwitchReporter reporter;
-    g_detector = new MemoryLeakDetector(&reporter);
-    MemoryLeakWarningPlugin::restoreNewDeleteOverloads();
-    g_detector->enable();
-    MemoryLeakWarningPlugin::setGlobalDetector(g_detector, &reporter);
+    real_memset = PlatformSpecificMemset;        PlatformSpecificMemset = my_memset;
     return vh::run_all(run_case);
 }
